@@ -67,6 +67,10 @@ func inspectCatalogModel(t reflect.Type) (catalogShape, []mapBodyField, error) {
 	var bodyFields []mapBodyField
 
 	for i := 0; i < t.NumField(); i++ {
+		if !t.Field(i).IsExported() {
+			// reflection can neither read (Interface) nor set an unexported field: it is not part of the model
+			continue
+		}
 		raw, ok := t.Field(i).Tag.Lookup(tagHydrAIDE)
 		if !ok {
 			continue
